@@ -289,7 +289,7 @@ Definition start_of_n (consts : list Z) (nm : list (option bytes)) (before : lis
   match i with
   | IConst k =>
     match nth_z consts k with
-    | Some w => Some (if word_is_zero w then SQ else SConst w)
+    | Some w => Some (SConst w)
     | None => None
     end
   | IOut u c =>
